@@ -4,7 +4,20 @@ from props import _slice_common as sc
 
 PROPERTY = "C02"
 LEAN_MODULE = "CrCube.Props.C02"
-THEOREMS = []
+THEOREMS = [
+    "CrCube.C02.rowBase_spec_2d",
+    "CrCube.C02.colBase_spec_2d",
+    "CrCube.C02.tableBase_spec_2d",
+    "CrCube.C02.rowBase_spec_3d",
+    "CrCube.C02.colBase_spec_3d",
+    "CrCube.C02.tableBase_spec_3d",
+    "CrCube.C02.unweighted_counts_respondents",
+    "CrCube.C02.margins_collapse",
+    "CrCube.C02.rowsMargin_cases",
+    "CrCube.C02.columnsMargin_cases",
+    "CrCube.C02.minBaseMask_iff",
+    "CrCube.C02.mask_fin",
+]
 RULE = ("random designs (1-3 variables over cat/cat_date/datetime/text/binned/mr/ca, missing categories anywhere, "
         "per-item missingness) x random surveys x min-base sizes; every base / margin / range / mask output of every "
         "partition is compared with the respondent-level spec (2-D bases) and the model (margins, ranges, masks); "
